@@ -251,9 +251,97 @@ impl Runner<TW> for RecRunner {
 
 type Opts = cli::Opts<cli::Empty, cli::Empty, cli::Empty, cli::Empty>;
 
-pub fn c15(seed: u64, idx: u64, t: &mut Tally) {
+/// The filter sources through the stock file parser: `Cucumber<_, parser::Basic, ..>` with the
+/// options given through `with_cli()` and, after it, the builder methods that only that facade has.
+fn c15_file(r: &mut Rng, idx: u64, t: &mut Tally, workdir: &str) {
+    let dir = format!("{workdir}/c15_{}_{idx}", std::process::id());
+    std::fs::create_dir_all(&dir).expect("mkdir");
+    let path = format!("{dir}/filt.feature");
+    let names = ["alpha", "beta", "gamma one", "delta-2", "Alpha beta", "omega"];
+    let tagline = |tags: &[String], ind: &str| if tags.is_empty() { String::new() } else { format!("{ind}{}\n", tags.iter().map(|t| format!("@{t}")).collect::<Vec<_>>().join(" ")) };
+    let ftags = rand_tags(r);
+    let mut text = format!("{}Feature: filt\n\n", tagline(&ftags, ""));
+    // (name, inherited tags) in file order
+    let mut all: Vec<(String, Vec<String>)> = Vec::new();
+    for i in 0..r.range(1, 4) {
+        let tags = rand_tags(r);
+        let name = format!("{} {i}", r.pick(&names));
+        text.push_str(&format!("{}  Scenario: {name}\n    Given step {i}\n\n", tagline(&tags, "  ")));
+        all.push((name, ftags.iter().chain(&tags).cloned().collect()));
+    }
+    for ri in 0..r.below(3) {
+        let rtags = rand_tags(r);
+        text.push_str(&format!("{}  Rule: r{ri}\n\n", tagline(&rtags, "  ")));
+        for i in 0..r.range(1, 3) {
+            let tags = rand_tags(r);
+            let name = format!("{} r{ri}{i}", r.pick(&names));
+            text.push_str(&format!("{}    Scenario: {name}\n      Given step\n\n", tagline(&tags, "    ")));
+            all.push((name, ftags.iter().chain(&rtags).chain(&tags).cloned().collect()));
+        }
+    }
+    std::fs::write(&path, &text).expect("write feature");
+    let name_re = r.chance(1, 3).then(|| (*r.pick(&["alpha", "^beta", "a [0-2]$", "one|two|omega", "(?i)ALPHA"])).to_owned());
+    let tag_ast = (name_re.is_none() && r.chance(2, 3)).then(|| rand_ast(r, 3));
+    let k = r.range(1, 3);
+    let closure = move |_f: &gherkin::Feature, _r: Option<&gherkin::Rule>, s: &gherkin::Scenario| s.name.len() % k == 0;
+    type FOpts = cli::Opts<cucumber::parser::basic::Cli, cli::Empty, cli::Empty, cli::Empty>;
+    let mut opts = FOpts::default();
+    opts.re_filter = name_re.as_ref().map(|re| Regex::new(re).unwrap());
+    opts.tags_filter = tag_ast.as_ref().map(to_op);
+    let rec = RecRunner::default();
+    let cuc = Cucumber::<TW, parser::Basic, PathBuf, RecRunner, Collect, cli::Empty>::custom(parser::Basic::new(), rec.clone(), Collect::default()).with_cli(opts);
+    let chain = r.below(4);
+    match chain {
+        1 => drop(block_on(cuc.language("en").expect("en").filter_run(PathBuf::from(&path), closure))),
+        2 => drop(block_on(cuc.language("en").expect("en").fail_on_skipped().filter_run(PathBuf::from(&path), closure))),
+        3 => drop(block_on(cuc.repeat_failed().language("en").expect("en").filter_run(PathBuf::from(&path), closure))),
+        _ => drop(block_on(cuc.filter_run(PathBuf::from(&path), closure))),
+    }
+    let _ = std::fs::remove_dir_all(&dir);
+    t.count("c15.file_parser_runs", 1);
+    let got: Vec<String> = rec
+        .0
+        .borrow()
+        .iter()
+        .filter_map(|f| f.as_ref().ok())
+        .flat_map(|f| f.scenarios.iter().map(|s| s.name.clone()).chain(f.rules.iter().flat_map(|r| r.scenarios.iter().map(|s| s.name.clone()))).collect::<Vec<_>>())
+        .collect();
+    let re = name_re.as_ref().map(|s| Regex::new(s).unwrap());
+    let exp: Vec<String> = all
+        .iter()
+        .filter(|(name, tags)| {
+            if let Some(re) = &re {
+                re.is_match(name)
+            } else if let Some(a) = &tag_ast {
+                eval_ast(a, &tags.iter().map(String::as_str).collect::<Vec<_>>())
+            } else {
+                name.len() % k == 0
+            }
+        })
+        .map(|(n, _)| n.clone())
+        .collect();
+    if got != exp {
+        let which = if name_re.is_some() { "name" } else if tag_ast.is_some() { "tags" } else { "closure" };
+        t.violation(
+            "C15",
+            &format!("filter:{which}"),
+            format!("[file parser, builder chain {chain}] runner received {got:?}, the active filter ({which}; name={name_re:?} tags={:?}) accepts {exp:?}", tag_ast.as_ref().map(render_ast)),
+            idx,
+            json!({"feature": text}),
+        );
+    }
+    if !exp.is_empty() && exp.len() < all.len() {
+        t.nontrivial_case("C15");
+        t.nontrivial("C15", fnv(&format!("file|{name_re:?}|{:?}|{chain}|{}|{}", tag_ast.as_ref().map(render_ast), exp.len(), all.len())));
+    }
+}
+
+pub fn c15(seed: u64, idx: u64, t: &mut Tally, workdir: &str) {
     let mut r = Rng::new(seed.wrapping_mul(1_000_003).wrapping_add(idx));
     t.evaluations += 1;
+    if idx % 8 == 5 {
+        return c15_file(&mut r, idx, t, workdir);
+    }
 
     // (1) tag expression evaluator vs an independent recursive one
     for _ in 0..6 {
@@ -530,7 +618,8 @@ fn outline(r: &mut Rng, line: &mut usize, name_i: usize, unknown: bool) -> (gher
         .collect();
     (
         gherkin::Scenario {
-            keyword: "Scenario Outline".into(),
+            // Examples are allowed under all four keywords (Gherkin 6+); the parser records the one written
+            keyword: (*r.pick(&["Scenario Outline", "Scenario Outline", "Scenario Template", "Scenario", "Example"])).into(),
             name: texty(r, &format!("outline {name_i}")),
             description: None,
             steps,
@@ -715,7 +804,8 @@ fn c16_file(r: &mut Rng, idx: u64, t: &mut Tally, workdir: &str) {
         } else {
             ""
         };
-        body.push_str(&format!("{ind}Scenario Outline: o{oi} <a> end{u}\n"));
+        let okw = *r.pick(&["Scenario Outline", "Scenario Outline", "Scenario Template", "Scenario", "Example"]);
+        body.push_str(&format!("{ind}{okw}: o{oi} <a> end{u}\n"));
         body.push_str(&format!("{ind}  Given eat <a><b> now\n"));
         body.push_str(&format!("{ind}  When doc\n{ind}    \"\"\"\n{ind}    text <n> here\n{ind}    \"\"\"\n"));
         body.push_str(&format!("{ind}  Then cells\n{ind}    | k | <b> |\n"));
@@ -841,11 +931,13 @@ const REGEXES: &[&str] = &[
     r"^I wait a lo*ng time$",
     r"^apples|pears$",
     r"CI:^foo is (\d+)$",
+    r"CI:i am hungry",
+    r"i am hungry",
 ];
 const TEXTS: &[&str] = &[
     "step 1", "step 22 with foo", "step", "bob eats 3", "bob eats 3 apples", "éüüß tail", "éß x", "ad", "abd", "abcd", "12 cukes", "has 5 cukes here",
     "x", "yz", "zz", "hello world", "日本", "日本語", "", "step x",
-    "cucumber are 3", "cucumbers are 3", "I wait a lng time", "I wait a looong time", "ripe pears", "apples pie", "FOO is 7", "foo is 7",
+    "cucumber are 3", "cucumbers are 3", "I wait a lng time", "I wait a looong time", "ripe pears", "apples pie", "FOO is 7", "foo is 7", "I am HUNGRY", "i am hungry", "say: i am hungry now",
 ];
 
 thread_local! {
@@ -884,7 +976,8 @@ pub fn c17(seed: u64, idx: u64, t: &mut Tally) {
             0 => None,
             k => Some(step::Location { path: if k == 1 { "src/a.rs" } else { "src/b.rs" }, line: r.range(1, 3) as u32, column: *r.pick(&[1u32, 1, 48]) }),
         };
-        if defs.iter().any(|d| d.0 == kw && d.1 == re && d.2 == loc) {
+        // (a definition is identified by keyword, pattern text and location - builder flags are not part of it)
+        if defs.iter().any(|d| d.0 == kw && pat(d.1) == pat(re) && d.2 == loc) {
             continue;
         }
         let fi = defs.len();
